@@ -86,7 +86,14 @@ def gen_cases(ctx, n):
             probs.append(pc.gen_header_problem(ctx.rng))      # generation/use at nearly the same utility level
             continue
         regime = ctx.rng.choice(["none", "iso", "multi", "steered", "steered", "glide", "limit"])
-        probs.append(pc.gen_problem(ctx.rng, regime=regime, nmax=6))
+        prob, m = pc.gen_problem(ctx.rng, regime=regime, nmax=6)
+        if ctx.rng.random() < 0.15:
+            # a site stated in MW with five decimals: duties of order 0.01 .. 1, so that an absolute slip of 1e-4 is far above the tolerance
+            k = ctx.rng.choice([1e-2, 1e-3])
+            for st in prob["streams"]:
+                st["heat_flow"] = round(st["heat_flow"] * k + ctx.rng.randrange(1, 10) * 1e-5, 5)
+            m = dict(m, shapes=m["shapes"] + ["small_duties"])
+        probs.append((prob, m))
     return probs
 
 
